@@ -267,16 +267,32 @@ func (server *Server) tlsServeListener(l net.Listener, tlsConfig *tls.Config) er
 			return err
 		}
 
-		tlsConn := tls.Server(conn, tlsConfig)
-		if err := tlsConn.Handshake(); err != nil {
-			return err
-		}
-		tlsState := tlsConn.ConnectionState()
-
-		go server.receive(tlsConn, &tlsState)
+		// The handshake is done by the connection's own goroutine: a failed,
+		// stalled or abandoned handshake must only affect that client.
+		go server.tlsReceive(conn, tlsConfig)
 	}
 
 	return nil
+}
+
+// tlsReceive performs the TLS handshake of an accepted connection and handles the connection.
+func (server *Server) tlsReceive(conn net.Conn, tlsConfig *tls.Config) error {
+	tlsConn := tls.Server(conn, tlsConfig)
+
+	// The connection is registered during the handshake so that Stop closes it.
+	handshakeConn := newConnWith(tlsConn, nil)
+	if !server.addConnIfRunning(handshakeConn) {
+		return handshakeConn.Close()
+	}
+	err := tlsConn.Handshake()
+	server.RemoveConn(handshakeConn)
+	if err != nil {
+		log.Error(err)
+		return errors.Join(err, handshakeConn.Close())
+	}
+	tlsState := tlsConn.ConnectionState()
+
+	return server.receive(tlsConn, &tlsState)
 }
 
 // receive handles a client connection.
